@@ -315,6 +315,7 @@ Section Needed.
       try (destruct (needed_all n) as (He & Hf & Hc & Hg & Hr & Hm & Ha & Hl & Hb & Hq & Hcmp); auto; fail).
     - apply manifest_needed.
     - apply ng_ret.
+    - apply ng_fail.
     - apply ng_bind; assumption.
   Qed.
 End Needed.
